@@ -150,7 +150,101 @@ class CollectionLiftSingle(Case):
         return obs_loc(r)
 
 
-CASES = [LiftSingle(), CollectionLiftSingle()]
+class AlternativeSequence(Case):
+    """alternative_genomic_sequence = the reference text with the variant's bases literally substituted, on whole
+    chromosomes and on chunks (symbolic reference text of any length, symbolic alternative allele)."""
+    props = ("C13",)
+    func = VAR + ".alternative_genomic_sequence"
+
+    def __init__(self, two):
+        self.two = two
+        self.name = ("VariantIntervalCollection" if two else "VariantInterval") + ".alternative_genomic_sequence[chunk parent]"
+        self.call = "(lambda s: (len(s), s))(x.alternative_genomic_sequence)"
+        self.module = "gene.variants"
+        self.func = (VCOL if two else VAR) + ".alternative_genomic_sequence"
+        self.ensures = {
+            "length": lambda i, r: r[0] == i.L + sum(i.ds, 0),
+            "k-th-character-is-the-literal-substitution": lambda i, r: Implies(
+                And(0 <= i.k, i.k < r[0]), _charat(r[1], i.k) == _edit_model(i, i.k)),
+        }
+
+    def inputs(self, S):
+        from .c04_liftover import chunk_parent
+        cp, cs, ce = chunk_parent(S)
+        ref = S.symstr("chunk_seq")
+        k = S.int("k")
+        vs1, ve1 = S.int("v1_start"), S.int("v1_end")
+        alt1 = S.symstr("v1_alt", "ACGTN")
+        S.assume(And(cs <= vs1, vs1 < ve1, ve1 <= ce))
+        v1 = S.new(VAR, vs1, ve1, alt1, "v", parent_or_seq_chunk_parent=cp)
+        edits = [(vs1 - cs, ve1 - cs, alt1)]
+        x = v1
+        if self.two:
+            vs2, ve2 = S.int("v2_start"), S.int("v2_end")
+            alt2 = S.symstr("v2_alt", "ACGTN")
+            S.assume(And(ve1 <= vs2, vs2 < ve2, ve2 <= ce))
+            v2 = S.new(VAR, vs2, ve2, alt2, "v", parent_or_seq_chunk_parent=cp)
+            edits.append((vs2 - cs, ve2 - cs, alt2))
+            x = S.new(VCOL, [v1, v2], parent_or_seq_chunk_parent=cp)
+        return NS(x=x, k=k, ref=ref, L=ce - cs, edits=edits, ds=[slen(a) - (e - s) for s, e, a in edits])
+
+    def samples(self, rng):
+        cs = rng.randint(0, 5)
+        L = rng.randint(6, 14)
+        a = rng.randint(cs, cs + L - 4)
+        b = a + rng.randint(1, 2)
+        d = dict(chunk_start=cs, chunk_end=cs + L, chunk_seq="".join(rng.choice("ACGT") for _ in range(L)),
+                 v1_start=a, v1_end=b, v1_alt="".join(rng.choice("ACGT") for _ in range(rng.randint(0, 3))), k=rng.randint(0, 12))
+        if self.two:
+            c = rng.randint(b, cs + L - 1)
+            d.update(v2_start=c, v2_end=min(cs + L, c + rng.randint(1, 2)),
+                     v2_alt="".join(rng.choice("ACGT") for _ in range(rng.randint(0, 3))))
+        return d
+
+    def observe(self, r):
+        from pyvc.check import default_observe as o
+        text = r[1].sequence if hasattr(r[1], "attrs") else str(r[1])
+        return [o(r[0]), text if isinstance(text, str) else None]
+
+
+def _charat(seq, k):
+    """code point of the k-th character of a Sequence (engine Obj with symbolic text, or a real Sequence)."""
+    t = seq.sequence if hasattr(seq, "attrs") else str(seq)
+    if hasattr(t, "arr"):
+        import z3
+        return z3.Select(t.arr, k)
+    return ord(t[k]) if 0 <= k < len(t) else -1
+
+
+def _refat(ref, k):
+    if hasattr(ref, "arr"):
+        import z3
+        return z3.Select(ref.arr, k)
+    return ord(ref[k]) if 0 <= k < len(ref) else -1
+
+
+def _edit_model(i, k):
+    """k-th code point of the reference with the edits (sorted, disjoint, chunk-relative) literally substituted."""
+    shift = 0
+    expr = None
+    pieces = []  # (condition on k, value)
+    pos = 0  # start, in edited coordinates, of the current reference stretch; reference offset = -shift
+    prev_end = 0
+    for s, e, alt in i.edits:
+        l = slen(alt)
+        # reference stretch [prev_end, s) sits at edited [prev_end + shift, s + shift)
+        pieces.append((k < s + shift, _refat(i.ref, k - shift)))
+        pieces.append((k < s + shift + l, _refat(alt, k - (s + shift))))
+        shift = shift + l - (e - s)
+        prev_end = e
+    last = _refat(i.ref, k - shift)
+    out = last
+    for cond, val in reversed(pieces):
+        out = If(cond, val, out)
+    return out
+
+
+CASES = [LiftSingle(), CollectionLiftSingle(), AlternativeSequence(False), AlternativeSequence(True)]
 
 CANARIES = [
     dict(name="lift-over: insertion abutting block start", props=("C13",), file="inscripta/biocantor/gene/variants.py",
